@@ -13,7 +13,7 @@ open Pogreb.Lock
 /-- The system calls the model's program makes are the ones the source makes, in that order. -/
 theorem C13_calls_as_modelled :
     Generated.lockAcquireCalls =
-      ["os.Stat", "os.OpenFile(os.O_RDWR | os.O_CREATE)", "syscall.Flock(syscall.LOCK_EX | syscall.LOCK_NB)", "Close", "Close", "os.Stat", "Close"] ∧
+      ["os.OpenFile(os.O_RDWR | os.O_CREATE | os.O_EXCL)", "os.OpenFile(os.O_RDWR)", "syscall.Flock(syscall.LOCK_EX | syscall.LOCK_NB)", "Close", "Close", "os.Stat", "Close", "Close", "Close"] ∧
     Generated.lockReleaseCalls = ["os.Remove", "Close"] := by
   decide
 
@@ -26,7 +26,8 @@ def owns : PC → Option Nat
 
 @[simp] theorem owns_idle : owns .idle = none := rfl
 @[simp] theorem owns_failed : owns .failed = none := rfl
-@[simp] theorem owns_statDone (e) : owns (.statDone e) = none := rfl
+@[simp] theorem owns_exclFailed : owns .exclFailed = none := rfl
+@[simp] theorem owns_again : owns .again = none := rfl
 @[simp] theorem owns_opened (e i) : owns (.opened e i) = none := rfl
 @[simp] theorem owns_locked (e i) : owns (.locked e i) = some i := rfl
 @[simp] theorem owns_holding (e i) : owns (.holding e i) = some i := rfl
@@ -41,6 +42,20 @@ def owns : PC → Option Nat
 @[simp] theorem setFlock_flock (s : Sys) (i : Nat) (o : Option Nat) (j : Nat) :
     (setFlock s i o).flock j = if j = i then o else s.flock j := rfl
 
+@[simp] theorem setPC_marked (s : Sys) (p : Nat) (c : PC) : (setPC s p c).marked = s.marked := rfl
+@[simp] theorem setPC_dirty (s : Sys) (p : Nat) (c : PC) : (setPC s p c).dirty = s.dirty := rfl
+@[simp] theorem setPC_nextIno (s : Sys) (p : Nat) (c : PC) : (setPC s p c).nextIno = s.nextIno := rfl
+@[simp] theorem setFlock_marked (s : Sys) (i : Nat) (o : Option Nat) : (setFlock s i o).marked = s.marked := rfl
+@[simp] theorem setFlock_dirty (s : Sys) (i : Nat) (o : Option Nat) : (setFlock s i o).dirty = s.dirty := rfl
+@[simp] theorem setFlock_nextIno (s : Sys) (i : Nat) (o : Option Nat) : (setFlock s i o).nextIno = s.nextIno := rfl
+@[simp] theorem setMark_pc (s : Sys) (i : Nat) : (setMark s i).pc = s.pc := rfl
+@[simp] theorem setMark_path (s : Sys) (i : Nat) : (setMark s i).path = s.path := rfl
+@[simp] theorem setMark_flock (s : Sys) (i : Nat) : (setMark s i).flock = s.flock := rfl
+@[simp] theorem setMark_dirty (s : Sys) (i : Nat) : (setMark s i).dirty = s.dirty := rfl
+@[simp] theorem setMark_nextIno (s : Sys) (i : Nat) : (setMark s i).nextIno = s.nextIno := rfl
+@[simp] theorem setMark_marked (s : Sys) (i j : Nat) :
+    (setMark s i).marked j = if j = i then true else s.marked j := rfl
+
 /-- Inductive invariant of the verified protocol: (own) a process past a successful flock owns
 that flock; (atPath) a holder's inode is the one the path names. -/
 structure LockInv (s : Sys) : Prop where
@@ -53,13 +68,15 @@ theorem LockInv.step {s : Sys} (h : LockInv s) (a : Action) : LockInv (step true
   obtain ⟨hown, hpath⟩ := h
   cases a with
   | start p =>
-    simp only [Lock.step]
-    split <;> first | exact ⟨hown, hpath⟩ | skip
+    simp only [Lock.step, openExcl]
+    repeat' split
+    all_goals first | exact ⟨hown, hpath⟩ | skip
     all_goals
       refine ⟨fun q j hq => ?_, fun q e j hq => ?_⟩ <;> by_cases hqp : q = p <;>
-        simp [hqp] at hq ⊢ <;> first | exact hown _ _ hq | exact hpath _ _ _ hq
+        simp [hqp] at hq ⊢ <;> first | exact hown _ _ hq | exact hpath _ _ _ hq |
+          (have h3 := hpath q _ _ hq; simp_all; done)
   | sys p =>
-    simp only [Lock.step, ↓reduceIte]
+    simp only [Lock.step, openExcl, ↓reduceIte]
     repeat' split
     all_goals first | exact ⟨hown, hpath⟩ | skip
     all_goals
@@ -107,6 +124,111 @@ theorem isHolding_iff (s : Sys) (p : Nat) : isHolding s p = true ↔ ∃ e i, s.
   · rename_i e i h; simp [h]
   · rename_i h; exact ⟨fun hf => (by cases hf), fun ⟨e, i, h'⟩ => (h e i h').elim⟩
 
+
+-- the owner's mark --------------------------------------------------------------------------
+
+/-- Reachable states of the verified protocol: any interleaving of start/sys/release/crash of any
+processes. -/
+def Reach (s : Sys) : Prop := ∃ as, s = run true Sys.init as
+
+/-- Inductive invariant about the mark (independent of the program counters):
+(dirtyMarked) while the last session has not completed Close, the path names a marked file;
+(markedLt) only inodes already handed out are marked; (cleanUnmarked) on a clean directory the file
+at the path (if any) is unmarked. -/
+structure MarkInv (s : Sys) : Prop where
+  dirtyMarked : s.dirty = true → ∃ j, s.path = some j ∧ s.marked j = true
+  markedLt : ∀ j, s.marked j = true → j < s.nextIno
+  cleanUnmarked : s.dirty = false → ∀ j, s.path = some j → s.marked j = false
+  pathLt : ∀ j, s.path = some j → j < s.nextIno
+
+theorem MarkInv.init : MarkInv Sys.init :=
+  ⟨fun h => by simp [Sys.init] at h, fun j h => by simp [Sys.init] at h, fun _ j h => by simp [Sys.init] at h,
+   fun j h => by simp [Sys.init] at h⟩
+
+theorem MarkInv.openExcl {s : Sys} (h : MarkInv s) (p : Nat) : MarkInv (openExcl s p) := by
+  obtain ⟨h1, h2, h3, h4⟩ := h
+  unfold Lock.openExcl
+  split
+  · exact ⟨h1, h2, h3, h4⟩
+  · rename_i hnone
+    refine ⟨fun hd => ?_, fun j hj => ?_, fun hd j hj => ?_, fun j hj => by simp at hj ⊢; omega⟩
+    · simp at hd
+      obtain ⟨j, hj, _⟩ := h1 hd
+      rw [hnone] at hj; cases hj
+    · simp at hj ⊢
+      exact Nat.lt_succ_of_lt (h2 j hj)
+    · simp at hj ⊢
+      subst hj
+      cases hm : s.marked s.nextIno with
+      | false => rfl
+      | true => exact absurd (h2 _ hm) (Nat.lt_irrefl _)
+
+theorem MarkInv.step {s : Sys} (h : MarkInv s) (v : Bool) (a : Action) : MarkInv (step v s a) := by
+  have hsame : ∀ t : Sys, t.path = s.path → t.marked = s.marked → t.dirty = s.dirty →
+      t.nextIno = s.nextIno → MarkInv t := by
+    intro t e1 e2 e3 e4
+    obtain ⟨h1, h2, h3, h4⟩ := h
+    exact ⟨by rw [e1, e2, e3]; exact h1, by rw [e2, e4]; exact h2, by rw [e1, e2, e3]; exact h3,
+      by rw [e1, e4]; exact h4⟩
+  cases a with
+  | start p =>
+    simp only [Lock.step]
+    split <;> first | exact h.openExcl p | exact h
+  | sys p =>
+    simp only [Lock.step]
+    split
+    · exact h.openExcl p
+    · split <;> exact hsame _ rfl rfl rfl rfl
+    · split
+      · split <;> exact hsame _ rfl rfl rfl rfl
+      · exact hsame _ rfl rfl rfl rfl
+    · rename_i e i _
+      split
+      · rename_i hpath
+        obtain ⟨h1, h2, h3, h4⟩ := h
+        refine ⟨fun _ => ⟨i, hpath, by simp⟩, fun j hj => ?_, fun hd => by simp at hd, fun j hj => h4 j hj⟩
+        simp at hj
+        by_cases hji : j = i
+        · subst hji; exact h4 j hpath
+        · simp [hji] at hj; exact h2 j hj
+      · exact hsame _ rfl rfl rfl rfl
+    · exact hsame _ rfl rfl rfl rfl
+    · exact h
+  | release p =>
+    simp only [Lock.step]
+    split
+    · obtain ⟨h1, h2, h3, h4⟩ := h
+      exact ⟨fun hd => by simp at hd, fun j hj => h2 j (by simpa using hj), fun _ j hj => by simp at hj,
+        fun j hj => by simp at hj⟩
+    · exact h
+  | crash p =>
+    simp only [Lock.step]
+    split <;> exact hsame _ rfl rfl rfl rfl
+
+theorem MarkInv.run {s : Sys} (h : MarkInv s) (v : Bool) (as : List Action) : MarkInv (run v s as) := by
+  induction as generalizing s with
+  | nil => exact h
+  | cons a as ih => exact ih (h.step v a)
+
+theorem Reach.markInv {s : Sys} (h : Reach s) : MarkInv s := by
+  obtain ⟨as, rfl⟩ := h; exact MarkInv.init.run true as
+
+theorem Reach.lockInv {s : Sys} (h : Reach s) : LockInv s := by
+  obtain ⟨as, rfl⟩ := h; exact lockInv_reachable as
+
+theorem Reach.init : Reach Sys.init := ⟨[], rfl⟩
+
+theorem Reach.step {s : Sys} (h : Reach s) (a : Action) : Reach (step true s a) := by
+  obtain ⟨as, rfl⟩ := h
+  exact ⟨as ++ [a], by simp [run, List.foldl_append]⟩
+
+/-- The step that turns `locked e i` into a holder, spelled out. -/
+theorem step_locked_at_path (s : Sys) (p : Nat) (e : Bool) (i : Nat)
+    (hpc : s.pc p = .locked e i) (hpath : s.path = some i) :
+    (step true s (.sys p)).pc p = .holding (e || s.marked i) i := by
+  simp [Lock.step, hpc, hpath]
+
+
 -- THEOREMS TO PROVE (statements fixed) ------------------------------------------------------
 
 /-- **Mutual exclusion**: in every reachable state (any number of processes, any schedule, any
@@ -134,32 +256,122 @@ the path and every flock as they were. -/
 theorem C13_loser_changes_nothing (s : Sys) (p : Nat) (h : (step true s (.sys p)).pc p = .failed)
     (hnot : s.pc p ≠ .failed) :
     (step true s (.sys p)).path = s.path ∧ (step true s (.sys p)).flock = s.flock := by
-  simp only [Lock.step, ↓reduceIte] at h ⊢
+  simp only [Lock.step, openExcl, ↓reduceIte] at h ⊢
   repeat' split at h
   all_goals first | (simp at h; done) | skip
   all_goals simp_all
 
-/-- **Unclean shutdown is detected**: if the lock path exists when an acquisition starts and nobody
-removes it meanwhile (no release step by anyone in between), a successful acquisition reports
-`acquiredExisting = true`. In particular after the holder crashed. -/
-theorem C13_unclean_detected (s : Sys) (p : Nat) (hpath : s.path.isSome = true)
-    (hstart : s.pc p = .idle ∨ s.pc p = .failed) :
-    (step true s (.start p)).pc p = .statDone true := by
-  rcases hstart with h | h <;> simp [Lock.step, h, hpath]
+/-- **Unclean shutdown is always detected**: in every reachable state, if the last session on the
+directory did not complete Close (`dirty`), the step on which any process `p` becomes the holder
+reports `acquiredExisting = true` — whatever happened while `p` was inside its acquisition (sessions
+that start and die, the file removed and created again, `p` itself having created the file). -/
+theorem C13_unclean_always_detected (s : Sys) (hs : Reach s) (p : Nat) (e e' : Bool) (i : Nat)
+    (hdirty : s.dirty = true) (hpc : s.pc p = .locked e i) (hpath : s.path = some i)
+    (hstep : (step true s (.sys p)).pc p = .holding e' i) : e' = true := by
+  rw [step_locked_at_path s p e i hpc hpath] at hstep
+  obtain ⟨j, hj, hm⟩ := hs.markInv.dirtyMarked hdirty
+  rw [hpath] at hj; cases hj
+  rw [hm, Bool.or_true] at hstep
+  injection hstep with h1 _
+  exact h1.symm
+
+/-- The same as an equation: the step yields exactly `holding true i`. -/
+theorem C13_unclean_always_detected' (s : Sys) (hs : Reach s) (p : Nat) (e : Bool) (i : Nat)
+    (hdirty : s.dirty = true) (hpc : s.pc p = .locked e i) (hpath : s.path = some i) :
+    (step true s (.sys p)).pc p = .holding true i := by
+  rw [step_locked_at_path s p e i hpc hpath]
+  obtain ⟨j, hj, hm⟩ := hs.markInv.dirtyMarked hdirty
+  rw [hpath] at hj; cases hj
+  rw [hm, Bool.or_true]
+
+/-- The only step on which a process becomes a holder is the one from `locked e i` with the path
+naming `i` (so the two theorems above cover every way of getting the lock). -/
+theorem C13_holding_only_from_locked (s : Sys) (a : Action) (p : Nat) (e' : Bool) (i : Nat)
+    (hnew : (step true s a).pc p = .holding e' i) (hold : ∀ e, s.pc p ≠ .holding e i) :
+    a = .sys p ∧ s.path = some i ∧ ∃ e, s.pc p = .locked e i ∧ e' = (e || s.marked i) := by
+  cases a with
+  | start q =>
+    exfalso
+    simp only [Lock.step, openExcl] at hnew
+    by_cases hqp : p = q
+    · subst hqp; repeat' split at hnew
+      all_goals simp_all
+    · repeat' split at hnew
+      all_goals simp_all
+  | sys q =>
+    by_cases hqp : p = q
+    · subst hqp
+      simp only [Lock.step, openExcl, ↓reduceIte] at hnew
+      repeat' split at hnew
+      all_goals simp_all
+      obtain ⟨h1, h2⟩ := hnew
+      subst h2; exact h1.symm
+    · exfalso
+      simp only [Lock.step, openExcl, ↓reduceIte] at hnew
+      repeat' split at hnew
+      all_goals simp_all
+  | release q =>
+    exfalso
+    simp only [Lock.step] at hnew
+    by_cases hqp : p = q
+    · subst hqp; repeat' split at hnew
+      all_goals simp_all
+    · repeat' split at hnew
+      all_goals simp_all
+  | crash q =>
+    exfalso
+    simp only [Lock.step] at hnew
+    by_cases hqp : p = q
+    · subst hqp; repeat' split at hnew
+      all_goals simp_all
+    · repeat' split at hnew
+      all_goals simp_all
+
+/-- **Mutual exclusion** over `Reach`: in every reachable state at most one process is `holding`. -/
+theorem C13_mutex_reach (s : Sys) (hs : Reach s) (p q : Nat)
+    (hp : isHolding s p = true) (hq : isHolding s q = true) : p = q := by
+  obtain ⟨as, rfl⟩ := hs
+  exact C13_mutex as p q hp hq
+
+/-- The converse of `C13_unclean_always_detected` is false: on a clean directory (`dirty = false`
+before the step) an opener can report `acquiredExisting = true`. Process 0 creates the file and is
+overtaken between `open` and `flock` by process 1, which opens the existing file, locks it and
+becomes the holder with `existed = true`. -/
+theorem C13_spurious_recovery_possible :
+    ∃ (as : List Action) (p i : Nat),
+      (run true Sys.init as).dirty = false ∧
+      (step true (run true Sys.init as) (.sys p)).pc p = .holding true i ∧
+      isHolding (run true Sys.init as) p = false := by
+  exact ⟨[.start 0, .start 1, .sys 1, .sys 1], 1, 0, by decide⟩
+
+/-- The same run as one action list ending with the holder. -/
+theorem C13_spurious_recovery_run :
+    (run true Sys.init [.start 0, .start 1, .sys 1, .sys 1]).dirty = false ∧
+    (run true Sys.init [.start 0, .start 1, .sys 1, .sys 1, .sys 1]).pc 1 = .holding true 0 := by
+  decide
+
+/-- **Partial converse**: on a clean directory the only way to report `acquiredExisting = true` is to
+have opened a lock file somebody else had just created (`e = true`: `p` did not create the file
+itself). The creator of the file never recovers a clean directory. -/
+theorem C13_clean_not_recovered_partial (s : Sys) (hs : Reach s) (p : Nat) (e : Bool) (i : Nat)
+    (hclean : s.dirty = false) (hpc : s.pc p = .locked e i) (hpath : s.path = some i)
+    (hstep : (step true s (.sys p)).pc p = .holding true i) : e = true := by
+  rw [step_locked_at_path s p e i hpc hpath] at hstep
+  rw [hs.markInv.cleanUnmarked hclean i hpath, Bool.or_false] at hstep
+  injection hstep
+
+/-- Hence: the process that created the lock file on a clean directory reports
+`acquiredExisting = false`. -/
+theorem C13_clean_creator_not_recovered (s : Sys) (hs : Reach s) (p : Nat) (i : Nat)
+    (hclean : s.dirty = false) (hpc : s.pc p = .locked false i) (hpath : s.path = some i) :
+    (step true s (.sys p)).pc p = .holding false i := by
+  rw [step_locked_at_path s p false i hpc hpath, hs.markInv.cleanUnmarked hclean i hpath]
+  rfl
 
 /-- A crash of the holder leaves the path in place (that is the unclean-shutdown mark). -/
 theorem C13_crash_keeps_path (s : Sys) (p : Nat) : (step true s (.crash p)).path = s.path := by
   simp only [Lock.step]
   split <;> rfl
-
-/-- **Clean shutdown is not recovered**: after the holder released completely and with no other
-process inside an acquisition, the next acquisition reports `acquiredExisting = false`. -/
-theorem C13_clean_not_recovered (s : Sys) (p q : Nat) (e : Bool) (i : Nat)
-    (hinv : s.path = some i) (hhold : s.pc p = .holding e i) (hq : s.pc q = .idle) (hpq : p ≠ q) :
-    let s1 := step true (step true s (.release p)) (.sys p)
-    (step true s1 (.start q)).pc q = .statDone false := by
-  have hqp : q ≠ p := fun h => hpq h.symm
-  simp [Lock.step, hhold, hq, hqp]
 
 /-- The re-check after `flock` is necessary: without it (the pinned protocol) three processes reach a
 state with two holders, and the first of them reports an unclean shutdown after a clean release. -/
@@ -175,6 +387,25 @@ example :
     let as : List Action := [.start 1, .sys 1, .sys 1, .sys 1, .start 2, .sys 2, .sys 2]
     (run true Sys.init as).pc 1 = .holding false 0 ∧ (run true Sys.init as).pc 2 = .failed ∧
       isHolding (run true Sys.init as) 1 = true ∧ isHolding (run true Sys.init as) 2 = false := by
+  decide
+
+/-- Non-vacuity of `C13_unclean_always_detected`, the case the mark exists for: process 0 creates the
+file (inode 0) and stalls before `flock`; process 1 opens the file, locks it, becomes the holder and
+dies; process 0 then locks the file it created itself (`locked false 0`) on a dirty directory — and
+reports `acquiredExisting = true` because of the mark. -/
+example :
+    let as : List Action := [.start 0, .start 1, .sys 1, .sys 1, .sys 1, .crash 1, .sys 0]
+    Reach (run true Sys.init as) ∧
+    (run true Sys.init as).dirty = true ∧ (run true Sys.init as).pc 0 = .locked false 0 ∧
+      (run true Sys.init as).path = some 0 ∧
+      (step true (run true Sys.init as) (.sys 0)).pc 0 = .holding true 0 :=
+  ⟨⟨_, rfl⟩, by decide⟩
+
+/-- Clean close then reopen: no recovery (`holding false`), with a fresh inode. -/
+example :
+    let as : List Action := [.start 0, .sys 0, .sys 0, .release 0, .sys 0, .start 1, .sys 1]
+    (run true Sys.init as).dirty = false ∧ (run true Sys.init as).pc 1 = .locked false 1 ∧
+      (step true (run true Sys.init as) (.sys 1)).pc 1 = .holding false 1 := by
   decide
 
 end Pogreb
